@@ -6,7 +6,11 @@ package main
 // the era's decoder and runs the era's whole UtxoValidationRules list,
 // classifying errors by type.
 //
-//	op:  vi <era> <slot> <start|-> <ttl|->
+//	op:  vi <era> <slot> <start|-> <ttl|-> [<valid> <build>]
+//	     valid = IsValid flag 1|0 (default 1); build = c (CBOR-encoded and decoded, default)
+//	     | s (the era's transaction struct built directly, the only way to obtain e.g. a
+//	     Dijkstra transaction with is_valid = false; there a bound 0 cannot be written
+//	     apart from "absent", so `0` is not allowed with build = s)
 //	out: ok=<0|1>        (1 = no validity-interval / TTL error from any listed rule)
 
 import (
@@ -16,6 +20,12 @@ import (
 	"strings"
 
 	"github.com/blinklabs-io/gouroboros/ledger/allegra"
+	"github.com/blinklabs-io/gouroboros/ledger/alonzo"
+	"github.com/blinklabs-io/gouroboros/ledger/babbage"
+	"github.com/blinklabs-io/gouroboros/ledger/common"
+	"github.com/blinklabs-io/gouroboros/ledger/conway"
+	"github.com/blinklabs-io/gouroboros/ledger/dijkstra"
+	"github.com/blinklabs-io/gouroboros/ledger/mary"
 	"github.com/blinklabs-io/gouroboros/ledger/shelley"
 	mockledger "github.com/blinklabs-io/ouroboros-mock/ledger"
 )
@@ -51,6 +61,28 @@ func genC26(r *Rand, n int, tier string, emit func(string)) {
 			}
 		}
 	}
+	// the validity interval is a phase-1 check: it applies to phase-2-invalid transactions
+	// (is_valid = false) too, in every era that carries the flag, however the object was built
+	for _, era := range []string{"alonzo", "babbage", "conway", "dijkstra"} {
+		for _, build := range []string{"c", "s"} {
+			if era == "dijkstra" && build == "c" {
+				continue // the Dijkstra decoder refuses is_valid = false
+			}
+			for _, s := range []uint64{0, 1, 10, 999, 1 << 40} {
+				for _, st := range []string{"-", strconv.FormatUint(s+1, 10), strconv.FormatUint(s, 10), "1000"} {
+					for _, tt := range []string{"-", strconv.FormatUint(s+1, 10), strconv.FormatUint(s, 10), "5"} {
+						if build == "s" && (st == "0" || tt == "0") {
+							continue
+						}
+						for _, v := range []string{"0", "1"} {
+							emit(fmt.Sprintf("vi %s %d %s %s %s %s", era, s, st, tt, v, build))
+							cnt++
+						}
+					}
+				}
+			}
+		}
+	}
 	bound := func(s uint64) string {
 		switch r.Intn(8) {
 		case 0:
@@ -82,7 +114,23 @@ func genC26(r *Rand, n int, tier string, emit func(string)) {
 		if era == "shelley" {
 			st = "-"
 		}
-		emit(fmt.Sprintf("vi %s %d %s %s", era, s, st, bound(s)))
+		tt := bound(s)
+		if g1EraIndex(era) >= 3 && r.Chance(1, 3) {
+			v := Pick(r, "0", "0", "1")
+			b := Pick(r, "c", "s")
+			if era == "dijkstra" && v == "0" {
+				b = "s"
+			}
+			if b == "s" && (st == "0" || tt == "0") {
+				b = "c"
+				if era == "dijkstra" {
+					v = "1"
+				}
+			}
+			emit(fmt.Sprintf("vi %s %d %s %s %s %s", era, s, st, tt, v, b))
+			continue
+		}
+		emit(fmt.Sprintf("vi %s %d %s %s", era, s, st, tt))
 	}
 }
 
@@ -96,10 +144,20 @@ func c26Opt(s string) (present bool, v uint64, ok bool) {
 
 func runC26(op string) string {
 	f := strings.Fields(op)
-	if len(f) != 5 || f[0] != "vi" || g1EraIndex(f[1]) < 0 {
+	if (len(f) != 5 && len(f) != 7) || f[0] != "vi" || g1EraIndex(f[1]) < 0 {
 		return "bad-op"
 	}
 	era := f[1]
+	valid, build := true, "c"
+	if len(f) == 7 {
+		if (f[5] != "0" && f[5] != "1") || (f[6] != "c" && f[6] != "s") {
+			return "bad-op"
+		}
+		valid, build = f[5] == "1", f[6]
+		if !valid && (g1EraIndex(era) < 3 || (era == "dijkstra" && build == "c")) {
+			return "bad-op" // no flag before Alonzo; the Dijkstra decoder refuses is_valid = false
+		}
+	}
 	slot, err := strconv.ParseUint(f[2], 10, 64)
 	hasStart, start, ok1 := c26Opt(f[3])
 	hasTtl, ttl, ok2 := c26Opt(f[4])
@@ -114,24 +172,91 @@ func runC26(op string) string {
 	if hasStart {
 		kv = append(kv, cbUint(8), cbUint(start))
 	}
-	raw := g1Envelope(era, cbMap(kv...), cbMap(), true, nil, 0, 0)
-	tx, derr := g1DecodeTx(era, raw)
-	if derr != nil {
-		return "decode-err"
+	var tx common.Transaction
+	if build == "s" {
+		if (hasStart && start == 0) || (hasTtl && ttl == 0) {
+			return "bad-op"
+		}
+		tx = c26StructTx(era, valid, start, ttl)
+		if tx == nil {
+			return "bad-op"
+		}
+	} else {
+		raw := g1Envelope(era, cbMap(kv...), cbMap(), valid, nil, 0, 0)
+		var derr error
+		tx, derr = g1DecodeTx(era, raw)
+		if derr != nil {
+			return "decode-err"
+		}
+	}
+	if g1EraIndex(era) >= 3 && tx.IsValid() != valid {
+		return "build-mismatch"
 	}
 	ls := mockledger.NewLedgerStateBuilder().Build()
 	pp := g1Pparams(era, g1PP{MinFeeA: 44, MinFeeB: 155381, MaxTxSize: 16384, Major: 9})
-	okv := 1
-	for _, rule := range g1Rules(era) {
-		e := safeRule(rule, tx, slot, ls, pp)
-		if e == nil {
-			continue
+	verdict := func() int {
+		okv := 1
+		for _, rule := range g1Rules(era) {
+			e := safeRule(rule, tx, slot, ls, pp)
+			if e == nil {
+				continue
+			}
+			var e1 shelley.ExpiredUtxoError
+			var e2 allegra.OutsideValidityIntervalUtxoError
+			if errors.As(e, &e1) || errors.As(e, &e2) {
+				okv = 0
+			}
 		}
-		var e1 shelley.ExpiredUtxoError
-		var e2 allegra.OutsideValidityIntervalUtxoError
-		if errors.As(e, &e1) || errors.As(e, &e2) {
-			okv = 0
-		}
+		return okv
+	}
+	okv := verdict()
+	if v2 := verdict(); v2 != okv {
+		return fmt.Sprintf("IMPURE ok=%d then ok=%d", okv, v2)
 	}
 	return fmt.Sprintf("ok=%d", okv)
+}
+
+// c26StructTx builds the era's transaction struct directly (no CBOR): absent bounds are
+// the zero value of the field.
+func c26StructTx(era string, valid bool, start, ttl uint64) common.Transaction {
+	switch era {
+	case "shelley":
+		t := &shelley.ShelleyTransaction{}
+		t.Body.Ttl = ttl
+		return t
+	case "allegra":
+		t := &allegra.AllegraTransaction{}
+		t.Body.Ttl = ttl
+		t.Body.TxValidityIntervalStart = start
+		return t
+	case "mary":
+		t := &mary.MaryTransaction{}
+		t.Body.Ttl = ttl
+		if start != 0 {
+			s := start
+			t.Body.TxValidityIntervalStart = &s
+		}
+		return t
+	case "alonzo":
+		t := &alonzo.AlonzoTransaction{TxIsValid: valid}
+		t.Body.Ttl = ttl
+		t.Body.TxValidityIntervalStart = start
+		return t
+	case "babbage":
+		t := &babbage.BabbageTransaction{TxIsValid: valid}
+		t.Body.Ttl = ttl
+		t.Body.TxValidityIntervalStart = start
+		return t
+	case "conway":
+		t := &conway.ConwayTransaction{TxIsValid: valid}
+		t.Body.Ttl = ttl
+		t.Body.TxValidityIntervalStart = start
+		return t
+	case "dijkstra":
+		t := &dijkstra.DijkstraTransaction{TxIsValid: valid}
+		t.Body.Ttl = ttl
+		t.Body.TxValidityIntervalStart = start
+		return t
+	}
+	return nil
 }
